@@ -3,8 +3,8 @@ NOTES = ("All checks: ./check <ID> quick|thorough builds the harness against /re
          "then runs generated search against an explicit oracle in the checked profile and re-executes itself in the unchecked "
          "profile with a lighter budget (full budget for C05) and a Trace-level log logger installed. Before the generators every check "
          "runs a stress pass over representative items of its own domain: right after each of 14 tours of the public API (state "
-         "across functions), from 8 threads at once, and — in 20 fresh child processes — as the very first calls from 16 barrier-released "
-         "threads (first-use races); call-order independence is checked by exhaustive ordered pairs over finite item sets and by "
+         "across functions), from 8 threads at once, and — in fresh child processes — as the very first calls of 48 threads released with an offset sweep "
+         "(first-use races) and single-threaded with a chosen first call; one item repeated 66,000 times; call-count soaks; call-order independence is checked by exhaustive ordered pairs over finite item sets and by "
          "generated call sequences over related hands. Exit 0 held, 1 VIOLATION (replay file printed), 2 cannot decide "
          "(build failure, oracle self-check failure, watchdog, non-reproducible mismatch). All randomness is a pure function of "
          "VERIF_SEED. Genuine defects found and repaired are listed in known-findings.txt as 'fixed:' lines (three fix: commits "
@@ -12,7 +12,7 @@ NOTES = ("All checks: ./check <ID> quick|thorough builds the harness against /re
 NOT_YET = {}
 
 add("C01",
-    "exhaustive enumeration (all 5-card subsets x 120 slot orders x 6 entry points) against a rule-based poker ordinal model; proptest random pairs for the comparator form",
+    "exhaustive enumeration (all 5-card subsets x 120 slot orders x 6 entry points) against a rule-based poker ordinal model; exhaustive ordered pairs of class representatives and proptest call sequences (call-order independence); proptest random pairs for the comparator form",
     "The whole stated domain is enumerated (1.87e9 evaluations, ~6 s): every five-card subset in every slot order through every five-card entry point must return the strength ordinal computed by an independent rule-based model; observed per-value hand counts must equal the model's class sizes (so every value 1..=7462 is produced and equal value <=> tie). Exhaustive exploration is the strongest thing testing can give and the domain is small enough to close the quantifier.",
     "Trusted: the reference model (harness/src/model/poker.rs), self-checked at start-up against the published 7462 classes, per-category class counts and five-card frequencies; that the model's 52 words are the crate's cards (C10).")
 
@@ -21,7 +21,7 @@ add("C02",
     "Every six-card subset and (quick: a seeded 1-in-8 stratum of / thorough: every one of the 133,784,560) seven-card subsets is ranked through all five entry points and must equal the minimum ordinal over all five-subsets computed by the model, which must itself equal a direct rule-based n-card evaluation; seeded slot orders per hand and random hands under all 720/5040 orders attack order dependence. Closing the hand quantifier by enumeration is feasible; the order quantifier (N! per hand) is sampled.",
     "Trusted: model (two forms cross-checked on every hand; best-hand category frequencies compared with the published 6-/7-card counts whenever the enumeration is complete). Slot orders beyond canonical are sampled.")
 add("C03",
-    "same enumerations as C02 with a validity predicate over the reported witness; exhaustive identity clause over all five-card hands x 120 orders",
+    "same enumerations and call sequences as C02 with a validity predicate over the reported witness; exhaustive identity clause over all five-card hands x 120 orders",
     "The reported hand is checked with a validity predicate (five slots, all from the input, distinct, strictly descending, ranks to the reported value by the crate and by the model) rather than one expected answer, because ties admit several correct witnesses; for five-card inputs the witness must be the input unchanged in every one of the 120 orders.",
     "Trusted: model ordinal for the witness; no claim about which of several equally ranked witnesses is chosen.")
 add("C04",
@@ -29,7 +29,7 @@ add("C04",
     "The per-slot factor of the domain (every u32) is enumerated; whole hands are an open domain and are explored with structure: every near-miss word (Hamming distance <= 2 of a card, fragments, flags) in every slot of every size, every duplicated slot pair, all arrangements over a small alphabet, 400k (thorough 5M) weighted proptest hands, and a coverage-guided campaign. Oracle: valid <=> every slot a model card and no two equal.",
     "Trusted: model card recogniser (layout formula); whole-hand space is sampled, not closed.")
 add("C05",
-    "exhaustive enumeration of all card-or-blank multisets (5,6 slots; 7 slots stratum/all), all 53^5 ordered arrays, all keys below 2^30 (thorough 2^32), in two build profiles",
+    "exhaustive enumeration of all card-or-blank multisets (5,6 slots; 7 slots stratum/all), all 53^5 ordered arrays, all 2^32 keys, call sequences over related hands, in two build profiles at full budget",
     "Totality over the stated alphabet is closed by enumeration in both semantics-relevant build profiles (overflow checks + debug assertions on / off); a five-slot hand with a blank must give 0 and Invalid through every entry point; hands of distinct cards must additionally equal the model.",
     "Trusted: opt-level 0 equivalent to the two opt-level-3 profiles; non-termination is only detectable as a watchdog timeout (exit 2).")
 add("C06",
@@ -37,7 +37,7 @@ add("C06",
     "Every value is converted and its category/class text compared with the text the model builds from the ranks of the poker class with that ordinal; every non-Invalid variant must label one contiguous non-empty range; for every hand the reported rank must equal the conversion of the model's ordinal (so the text describes the actual cards).",
     "Trusted: model class naming (documented spellings Trey/Deuce); variants compared by Debug text.")
 add("C07",
-    "exhaustive: all 2^32 ordered pairs of converted values against an implementation-derived integer key + stated direction; all adjacent values for the enums",
+    "exhaustive: all 2^32 ordered pairs of converted values against an implementation-derived integer key + stated direction; related pairs converted afresh back to back; all adjacent values for the enums",
     "All 65,536^2 pairs: cmp must agree with the order of an integer key derived from cmp itself (settles transitivity over all triples), with partial_cmp, the four operators, and == ; stated direction checked independently.",
     "Trusted: nothing beyond the statement; direction among invalid ranks deliberately not asserted.")
 add("C08",
@@ -77,7 +77,7 @@ add("C16",
     "The result depends on population count and overflow bits only; all 2,081 boundary values enumerated.",
     "Trusted: statement's error classes.")
 add("C17",
-    "exhaustive: all 2,652 ordered pairs against an integer half-point model of Chen's formula",
+    "exhaustive: all 2,652 ordered pairs against an integer half-point model of Chen's formula; all 2,652^2 two-call sequences",
     "Finite domain closed completely; helpers, symmetry and shift invariance included.",
     "Trusted: Chen's published formula as restated in the property.")
 add("C18",
